@@ -5,7 +5,9 @@
    [c] over every configuration (number of streams, hbbuffer sizes, parents,
    task queues and steal chains), [ops] over every finite history of whole
    operations by any streams: module.schedule, module.select,
-   __parsec_schedule_vp (next_task retention, foreign threads), get_next_task
+   __parsec_schedule_vp (next_task retention, foreign threads), get_next_task,
+   __parsec_schedule_flush_private (as a schedule of the retained task alone: the
+   code does that only when the task is a ring of one, finding flush-stale-ring)
    and drains.  [vpend s] is everything the scheduler holds in state [s] (module
    queues and next_task slots); [op_in]/[ob_out] are the identities an
    operation hands in / its observation hands out. *)
